@@ -1,9 +1,12 @@
 // C10 — integer arithmetic is exact; number literals are not degraded.
 //
 // correspondence stream `arith`: real gojq operators (through the public API, every
-//   exact Go carrier) vs Model/Arith.lean.
+//
+//	exact Go carrier) vs Model/Arith.lean.
+//
 // oracle (model-free search): the same operators vs math/big; literals through `.`
-//   and through the encoders compared byte-wise with the input digits.
+//
+//	and through the encoders compared byte-wise with the input digits.
 package main
 
 import (
@@ -20,6 +23,9 @@ import (
 
 var ops = []struct{ name, src string }{
 	{"add", "$a + $b"}, {"sub", "$a - $b"}, {"mul", "$a * $b"}, {"div", "$a / $b"}, {"mod", "$a % $b"},
+	// "comparisons between integers are exact"
+	{"lt", "$a < $b"}, {"le", "$a <= $b"}, {"eq", "$a == $b"}, {"ne", "$a != $b"}, {"gt", "$a > $b"}, {"ge", "$a >= $b"},
+	{"srt", "[$a, $b] | sort == [$a, $b]"}, {"idx", "[$a] | index($b) != null"}, {"unq", "[$a, $b] | unique | length"},
 }
 var unops = []struct{ name, src string }{{"neg", "-$a"}, {"abs", "$a | abs"}}
 
@@ -148,6 +154,12 @@ func main() {
 	distinct := map[string]bool{}
 	for pi, p := range pairs {
 		for _, o := range ops {
+			if _, okx := toBig(p.a); o.name == "srt" || o.name == "idx" || o.name == "unq" {
+				// derived order consumers: judged on integer pairs only (NaN makes sort/unique irregular)
+				if _, oky := toBig(p.b); !okx || !oky {
+					continue
+				}
+			}
 			res, _ := run1(codes[o.name], p.a, p.b)
 			lines = append(lines, o.name+" "+common.Canon(p.a)+" "+common.Canon(p.b))
 			impl = append(impl, res)
@@ -167,7 +179,10 @@ func main() {
 			}
 			orc.Cases++
 			distinct[o.name+res] = true
-			if !ctx.Thorough && pi >= gridPairs/1 && pi%4 != 0 || !ctx.Thorough && pi < gridPairs && pi%7 != 0 {
+			// comparisons: equal and adjacent integers are where a representation shortcut can go
+			// wrong (int MinInt64 vs *big.Int -2^63), so those pairs always get every carrier
+			near := isCmp(o.name) && new(big.Int).Sub(x, y).IsInt64() && new(big.Int).Abs(new(big.Int).Sub(x, y)).Cmp(big.NewInt(2)) <= 0
+			if !near && (!ctx.Thorough && pi >= gridPairs/1 && pi%4 != 0 || !ctx.Thorough && pi < gridPairs && pi%7 != 0) {
 				continue // quick: all carriers on a fixed fraction of the pairs only
 			}
 			for _, ca := range common.Carriers(p.a) {
@@ -347,6 +362,21 @@ func kindOf(v any) string {
 	return "?"
 }
 
+func isCmp(op string) bool {
+	switch op {
+	case "lt", "le", "eq", "ne", "gt", "ge", "srt", "idx", "unq":
+		return true
+	}
+	return false
+}
+
+func okBool(b bool) string {
+	if b {
+		return "ok t"
+	}
+	return "ok f"
+}
+
 func bigOp(op string, x, y *big.Int) string {
 	switch op {
 	case "add":
@@ -369,6 +399,23 @@ func bigOp(op string, x, y *big.Int) string {
 			return "err zeromod"
 		}
 		return "ok i" + new(big.Int).Rem(x, y).String()
+	case "lt":
+		return okBool(x.Cmp(y) < 0)
+	case "le", "srt":
+		return okBool(x.Cmp(y) <= 0)
+	case "eq", "idx":
+		return okBool(x.Cmp(y) == 0)
+	case "ne":
+		return okBool(x.Cmp(y) != 0)
+	case "gt":
+		return okBool(x.Cmp(y) > 0)
+	case "ge":
+		return okBool(x.Cmp(y) >= 0)
+	case "unq":
+		if x.Cmp(y) == 0 {
+			return "ok i1"
+		}
+		return "ok i2"
 	}
 	return ""
 }
